@@ -276,6 +276,8 @@ type c06Probe struct {
 	capIdx  int
 	gwPrev  float64
 	peatCls string
+	phi0    [21]float64 // pore volume of each layer on the first day of the run (a property of the soil matrix)
+	havePhi bool
 }
 
 func c06Debug(g *hermes.GlobalVarsMain, zeit int) {
@@ -320,6 +322,9 @@ func (l *c06Probe) probe() *hermes.VerifProbe {
 			l.c.Eval(N + 1)
 			nt := l.capIdx >= 0 || g.GRW != l.gwPrev
 			l.gwPrev = g.GRW
+			if !l.havePhi {
+				l.phi0, l.havePhi = g.PORGES, true
+			}
 			for i := 0; i < N; i++ {
 				wg := g.WG[1][i]
 				if !finite(wg) {
@@ -338,7 +343,8 @@ func (l *c06Probe) probe() *hermes.VerifProbe {
 					hi += g.CAPS[l.capIdx]
 				}
 				// (field capacity never exceeds the pore volume - C15 -, so the pore volume bounds the water content as well)
-				if phi := g.PORGES[i]; phi > 0 && wg > phi+(hi-g.W[i])+1e-12 {
+				// ... the pore volume the layer has at the start of the run: nothing in the model moves the soil matrix
+				if phi := math.Min(g.PORGES[i], l.phi0[i]); phi > 0 && wg > phi+(hi-g.W[i])+1e-12 {
 					l.c.Violate("above-pore-volume", fmt.Sprintf("%s day %d layer %d/%d: water content %.12g above the pore volume %.12g (field capacity %.12g; groundwater %.4g)", l.label, zeit, i+1, N, wg, phi, g.W[i], g.GRW), nil)
 				}
 				if wg > hi+1e-12 {
